@@ -17,6 +17,14 @@ unchanged and neither a Binding response, nor a connectivity check, nor `connect
 History: before repo commit f41aa68 the full safety statement was false — a message without any MESSAGE-INTEGRITY passed
 `QXmppStunMessage::decode` and was processed as authenticated (two such datagrams made the component report `connected` to a
 stranger).  The old witness is kept as `former_takeover_witness_is_inert` (and first in the harness corpus).
+
+Scope.  Modelled and covered by the statements below: one component with one local host transport; peer checks; STUN-server discovery
+(acceptance rule only: a message carrying the id of an outstanding discovery transaction is processed unauthenticated, from any
+source, and can only add a LOCAL server-reflexive candidate); `close()`; remote credentials set separately and replaced; the
+fallback pair used by `sendDatagram` before a pair is selected; retransmission and time-out of checks.  NOT modelled: the TURN
+allocation (datagrams relayed by it enter the same `handleDatagram`; the harness injects forged ones on that path, oracle only),
+several local transports, role-conflict resolution (not implemented by the code, see `role_conflict_request_dropped`), what `close()`
+does to transactions in flight and any operation other than receiving/sending after `close()`.
 -/
 namespace Qx.C15
 
@@ -115,7 +123,9 @@ theorem attributes_after_mi_ignored (s : St) (src : Nat) (m : Stun) (pre post : 
       (by simp [Stun.decoded, parsedPrio_trailer pre post st])
   have e2 : handleResponse s src ({ m with attrs := pre ++ .mi st :: post } : Stun)
           = handleResponse s src ({ m with attrs := pre ++ [.mi st] } : Stun) := rfl
-  simp only [react, reactPeer, hs, prescan_trailer pre post st, decodeWalk_trailer _ pre post st h, e1, e2]
+  rw [react_stun_peer s src ({ m with attrs := pre ++ .mi st :: post } : Stun) hs,
+    react_stun_peer s src ({ m with attrs := pre ++ [.mi st] } : Stun) hs]
+  simp only [reactPeer, prescan_trailer pre post st, decodeWalk_trailer _ pre post st h, e1, e2]
 
 /-- … in particular the tampering that makes a controlled agent nominate: USE-CANDIDATE (or a PRIORITY) appended behind the valid
 MESSAGE-INTEGRITY of a genuine request changes nothing. -/
@@ -130,7 +140,8 @@ could not verify it): remote user set or not, checks running or not. -/
 theorem response_before_remote_password_dropped (s : St) (src : Nat) (m : Stun)
     (hpw : s.remotePwSet = false) (hc : m.cls = .response ∨ m.cls = .error) (hs : s.stunTx.contains m.txid = false) :
     react s { src := src, kind := .stun m } = (s, []) := by
-  rcases hc with hc | hc <;> simp [react, reactPeer, hc, hpw, hs]
+  rw [react_stun_peer s src m hs]
+  rcases hc with hc | hc <;> simp [reactPeer, hc, hpw]
 
 /-- **Whole histories.**  A history that consists only of unauthenticated datagrams (any number, any mix) leaves every state
 `s` without outstanding STUN-server transactions (none configured, or discovery finished) — in particular its connectivity view — exactly as it was. (Name kept from the time when this held only for datagrams that
@@ -201,12 +212,12 @@ theorem fallback_changes_only_by_signalling_or_known_sender (s : St) (op : Op) :
     (∃ a p, op = .dgram { src := a, kind := .nonStun p } ∧ (findPair s.pairs a).isSome = true ∧ (step s op).1.fallback = some a) :=
   step_fallback s op
 
-theorem send_goes_to_selected_else_fallback (s : St) (p : List UInt8) (hc : s.closed = false) :
+theorem send_goes_to_selected_else_fallback (s : St) (p : List UInt8) :
     (sendApp s p).2 = [match s.active, s.fallback with
       | some a, _ => .appSent a p
       | none, some f => .appSent f p
       | none, none => .appNoRoute] := by
-  simp only [sendApp, hc]
+  simp only [sendApp]
   cases s.active <;> cases s.fallback <;> simp
 
 /-! ## STUN-server discovery, close(), changed credentials -/
@@ -218,11 +229,10 @@ theorem stun_server_path_never_touches_connectivity (s : St) (src : Nat) (m : St
     connView (react s { src := src, kind := .stun m }).1 = connView s ∧
     (react s { src := src, kind := .stun m }).1.fallback = s.fallback ∧
     ∀ o ∈ (react s { src := src, kind := .stun m }).2, isHarmlessOut o = true := by
-  simp only [react]
+  simp only [react, h, if_true]
   split
   · simp
-  · simp only [h, if_true]
-    have h1 := reactServer_view s m
+  · have h1 := reactServer_view s m
     exact ⟨h1.1, h1.2.1, h1.2.2.2⟩
 
 /-- **Acceptance rule for server answers:** a local server-reflexive candidate is added only by a Binding success response that
@@ -237,14 +247,14 @@ theorem server_reflexive_only_for_outstanding_transaction (s : St) (d : Datagram
 compared with the server's address — the 96-bit transaction id is the only protection of the discovery exchange. -/
 theorem server_answer_source_not_checked (s : St) (a b : Nat) (m : Stun) (h : s.stunTx.contains m.txid = true) :
     react s { src := a, kind := .stun m } = react s { src := b, kind := .stun m } := by
-  simp [react, h]
+  simp only [react, h, if_true]
 
-/-- **close():** afterwards nothing that arrives has any effect and nothing is routed; the component is no longer connected. -/
-theorem closed_component_is_inert (s : St) (d : Datagram) (p : List UInt8) :
-    (step s .close).1.connected = false ∧
-    react (step s .close).1 d = ((step s .close).1, []) ∧
-    (sendApp (step s .close).1 p).2 = [.appNoRoute] := by
-  simp [step, close, St.connected, react, sendApp]
+/-- **close():** afterwards nothing that arrives has any effect and the component is no longer connected.  (Documented: `sendDatagram`
+after `close()` still writes — to the fallback pair, because `activePair` was reset, and from a fresh port, because Qt re-opens a
+closed QUdpSocket on write.) -/
+theorem closed_component_is_inert (s : St) (d : Datagram) :
+    (step s .close).1.connected = false ∧ react (step s .close).1 d = ((step s .close).1, []) := by
+  simp [step, close, St.connected, react]
 
 /-- **Changed remote credentials:** once `setRemotePassword` has replaced the remote password, a response protected with the
 superseded one (e.g. the answer to a check sent before the change) is unauthenticated for every class, hence has no effect. -/
@@ -265,13 +275,6 @@ theorem superseded_password_no_effect (s : St) (src : Nat) (m : Stun) (pre post 
     cases m.cls <;> decide
   exact (unauthenticated_traffic_no_effect s _ hun).1
 
-/-- USE-CANDIDATE (or ICE-CONTROLLING) sent by the peer of a CONTROLLING component — i.e. by the controlled side — is a role
-conflict: dropped, nothing nominated. -/
-theorem use_candidate_from_controlled_side_rejected (s : St) (src : Nat) (m : Stun)
-    (hc : s.controlling = true) (hu : m.useCandidate = true) :
-    handleRequest s src m = (s, [.roleConflict]) :=
-  role_conflict_request_dropped s src m (Or.inl ⟨hc, Or.inr hu⟩)
-
 /-- Retransmissions stop: the seventh firing of the retransmission timer after 7 transmissions fails the pair instead of sending
 again, and a failed pair is not picked up by the check timer (only `waiting` pairs are). -/
 theorem retransmission_gives_up (s : St) (t : Nat) (p : Pair) (hp : s.pairs.find? (fun q => q.tx == some t) = some p)
@@ -286,6 +289,13 @@ theorem role_conflict_request_dropped (s : St) (src : Nat) (m : Stun)
          (s.controlling = false ∧ m.roleAttr = .controlled)) :
     handleRequest s src m = (s, [.roleConflict]) := by
   rcases h with ⟨h1, h2 | h2⟩ | ⟨h1, h2⟩ <;> simp [handleRequest, h1, h2]
+
+/-- USE-CANDIDATE (or ICE-CONTROLLING) sent by the peer of a CONTROLLING component — i.e. by the controlled side — is a role
+conflict: dropped, nothing nominated. -/
+theorem use_candidate_from_controlled_side_rejected (s : St) (src : Nat) (m : Stun)
+    (hc : s.controlling = true) (hu : m.useCandidate = true) :
+    handleRequest s src m = (s, [.roleConflict]) :=
+  role_conflict_request_dropped s src m (Or.inl ⟨hc, Or.inr hu⟩)
 
 /-! ## Priorities -/
 
@@ -410,12 +420,12 @@ theorem honest_pair_connects_despite_loss_partial
 `addrB` to the component living there: what B's application receives is exactly the list of payloads A's application sent,
 A's state and B's connectivity view are untouched. -/
 theorem application_datagrams_carried (a b : St) (addrA addrB : Nat) (h : a.active = some addrB)
-    (hca : a.closed = false) (hcb : b.closed = false) (ps : List (List UInt8)) :
+    (hcb : b.closed = false) (ps : List (List UInt8)) :
     let sent := run a (ps.map .sendApp)
     let arriving := route sent.1 addrA addrB sent.2
     let recv := run b (arriving.map .dgram)
     recv.2 = ps.map Out.appData ∧ sent.1 = a ∧ connView recv.1 = connView b := by
-  simp only [run_sendApp a addrB hca h ps, route_appSent a addrA addrB ps, List.map_map]
+  simp only [run_sendApp a addrB h ps, route_appSent a addrA addrB ps, List.map_map]
   have h2 := run_nonStun b hcb addrA ps
   exact ⟨h2.1, trivial, h2.2⟩
 
@@ -431,8 +441,8 @@ theorem honest_pair_carries_datagram_lists (aControlling : Bool) (component addr
   have hc := honest_pair_connects_partial aControlling component addrA addrB hne
   simp only at hc
   obtain ⟨_, _, hA, hB, _, _, _, _, hcA, hcB⟩ := hc
-  exact ⟨(application_datagrams_carried _ _ addrA addrB hA hcA hcB ps).1,
-         (application_datagrams_carried _ _ addrB addrA hB hcB hcA qs).1⟩
+  exact ⟨(application_datagrams_carried _ _ addrA addrB hA hcB ps).1,
+         (application_datagrams_carried _ _ addrB addrA hB hcA qs).1⟩
 
 /-! ## Non-vacuity: concrete, non-trivial instances of the hypotheses -/
 
@@ -478,6 +488,22 @@ example : (react (run (init false) [.setRemoteCreds, .addRemote 1 (localPriority
 example : (react (run (init false) [.setRemoteUser, .addRemote 1 (localPriority 1), .connect]).1
     { src := 1, kind := .stun { cls := .response, txid := 0, attrs := [.mi .validRemote] } }) =
     ((run (init false) [.setRemoteUser, .addRemote 1 (localPriority 1), .connect]).1, []) := by decide
+-- STUN-server discovery: an answer from ANY address is taken for the server's when it carries the outstanding id; a second use of
+-- the id is no longer a server answer (peer path: dropped, no remote password)
+example : (run (init false 1 2) [.dgram { src := 8, kind := .stun { cls := .response, txid := 500, attrs := [], mapped := some 60 } },
+    .dgram { src := 8, kind := .stun { cls := .response, txid := 500, attrs := [], mapped := some 61 } }]).2
+    = [.accepted, .localCandidate 60] := by decide
+example : (init false 1 2).stunTx = [500, 501] ∧ (init false).stunTx = [] := by decide
+-- replaced remote password: the answer protected with the old one is refused, the one with the new password connects
+example : (run (init false) [.setRemoteCreds, .addRemote 1 (localPriority 1), .connect, .setRemotePassword,
+    .dgram { src := 1, kind := .stun { cls := .response, txid := 0, attrs := [.mi .validOldRemote] } }]).2.getLast? = some .warnBadMi := by decide
+-- close() while a check is in flight, and on a connected component
+example : ((run midNegotiation [.close, .dgram { src := 1, kind := .stun { cls := .response, txid := 0, attrs := [.mi .validRemote] } }]).1.connected,
+    (run midNegotiation [.dgram { src := 1, kind := .stun { cls := .response, txid := 0, attrs := [.mi .validRemote] } }, .close]).1.connected) = (false, false) := by decide
+-- the fallback pair: first signalled candidate, moved by application data from another known candidate, not by a stranger
+example : ((run (init false) [.addRemote 1 5, .addRemote 2 4]).1.fallback,
+    (run (init false) [.addRemote 1 5, .addRemote 2 4, .dgram { src := 2, kind := .nonStun [0x80] }]).1.fallback,
+    (run (init false) [.addRemote 1 5, .addRemote 2 4, .dgram { src := 8, kind := .nonStun [0x80] }]).1.fallback) = (some 1, some 2, some 1) := by decide
 -- role conflict hypothesis is met by the honest request of a same-role agent
 example : handleRequest (init true) 1 { cls := .request, txid := 1, attrs := [.mi .validLocal], useCandidate := true, roleAttr := .controlling }
     = (init true, [.roleConflict]) := by decide
